@@ -231,7 +231,7 @@ func (r *runner) parent() {
 	}
 	var scs []Scenario
 	scs = append(scs, corpusScenarios()...)
-	n := c.N(28, 300)
+	n := c.N(28, 450)
 	for i := 0; i < n; i++ {
 		sub := rand.New(rand.NewPCG(c.Seed, uint64(i)+1000003))
 		scs = append(scs, genScenario(sub, c.Seed, i, func(k string) { c.Dist(k) }))
